@@ -769,7 +769,7 @@ def mesh_as_meshio(vk, cfg):
         vk.canary("points are padded in front", np.asarray(rec.made[0].kw["points"])[:, -dim:], snap if dim < 3 else 2 * snap)
 
 
-READ_CFGS = [dict(nblocks=b, dim=d, cellblock=c) for b, d, c in [(1, None, "none"), (1, 2, "none"), (2, 2, "none"), (3, None, "none"), (3, 2, "int"), (3, 1, "slice"), (2, 3, "int")]]
+READ_CFGS = [dict(nblocks=b, dim=d, cellblock=c) for b, d, c in [(1, None, "none"), (1, 2, "none"), (2, 2, "none"), (3, None, "none"), (3, 2, "int"), (3, 1, "slice"), (2, 3, "int"), (3, 2, "int0"), (2, None, "int0"), (3, None, "slice0")]]
 
 
 @contract("C20", "mesh.read", configs=READ_CFGS, engine="E1")
@@ -791,7 +791,7 @@ def mesh_read(vk, cfg):
         cells = [rec.CellBlock(t, d.copy()) for t, d in zip(types, datas)]
 
     rec.to_read = FileMesh()
-    sel = {"none": None, "int": cfg["nblocks"] - 1, "slice": slice(1, 3)}[cfg["cellblock"]]
+    sel = {"none": None, "int": cfg["nblocks"] - 1, "slice": slice(1, 3), "int0": 0, "slice0": slice(0, 1)}[cfg["cellblock"]]  # 0: a falsy but valid selection
     chosen = list(range(cfg["nblocks"])) if sel is None else ([sel] if isinstance(sel, int) else list(range(cfg["nblocks"]))[sel])
     snap = vk.snapshot(pts)
     with stubbed_meshio(rec):
